@@ -157,3 +157,17 @@ Theorem C04_source_iter_rfold : forall f g pan a so nd init,
   let '(o, m, t, c) := run_fold [a] so f g pan (pipe_of gen_iter_rfold nd) (length a) init in
   exists t', fold_ true g pan init (rev a) = (o, (m ++ t')%list, List.concat c) /\ Permutation t t'.
 Proof. exact tie_iter_rfold. Qed.
+
+(* GenericArrayIter::clone as regenerated: each clone is written into the new iterator and THEN its
+   index_back advanced, so that when a later T::clone (here: call k of f) panics the new iterator's
+   Drop releases exactly the clones made so far -- Functional.clone_loop, the loop of iter_clone *)
+Theorem C04_source_iter_clone : forall f g pan nd a,
+  match clone_loop (cl_of f) pan 0 a [] with
+  | (Some clones, _) =>
+    run_for_each [a] false f g pan (pipe_of gen_iter_clone nd) (length a) =
+    (Ok clones, [], [], [], map (fun x => [x]) a)
+  | (None, made) =>
+    exists c, run_for_each [a] false f g pan (pipe_of gen_iter_clone nd) (length a) =
+              (Panic, [], [], map EDrop made, c)
+  end.
+Proof. exact tie_iter_clone. Qed.
